@@ -4,6 +4,7 @@ import importlib
 import math
 import os
 import sys
+import shutil
 import tempfile
 from fractions import Fraction as F
 
@@ -35,6 +36,7 @@ def ensure_starter():
     spec = importlib.util.spec_from_file_location(STARTER_NAME, path)
     mod = importlib.util.module_from_spec(spec)
     spec.loader.exec_module(mod)
+    shutil.rmtree(d, ignore_errors=True)
 
 
 class ListWorkload(Workload):
